@@ -136,6 +136,12 @@ func c01Templates() []string {
 		`func fib(n) {if n < 2 {return n}; fib(n - 1) + fib(n - 2)}; println(fib(15))`,
 		`func even(n) {if n == 0 {return true}; odd(n - 1)}; func odd(n) {if n == 0 {return false}; even(n - 1)}; println(even(10), odd(7))`,
 		`func count(n) {if n == 0 {return 0}; 1 + count(n - 1)}; println(count(50))`,
+		// repeated calls: equal and different arguments, few and many of them (results must not be confused)
+		`f = func(a, b, c, d, e) {a + b + c + d + e}; println(f(1, 2, 3, 4, 5), f(1, 2, 3, 4, 6), f(1, 2, 3, 4, 5), f(0, 2, 3, 4, 5))`,
+		`v = func(..) {len(..)}; println(v(1, 2, 3, 4, 5), v(1, 2, 3, 4, 5, 6), v(1, 2, 3, 4), v())`,
+		`g = func(a, b, c, d, e, f) {println("in", f); a * f}; println(g(1, 2, 3, 4, 5, 6)); println(g(1, 2, 3, 4, 5, 7)); println(g(1, 2, 3, 4, 5, 6))`,
+		`h = func(a, b) {println("h", a, b); a - b}; println(h(1, 2), h(2, 1), h(1, 2), h(1.0, 2), h("1", 2) == nil)`,
+		`k = func(x) {x}; println(k(1), k(1.0), k("1"), k([1]), k({1: 1}), k(nil), k(true), k(0.0), k(-0.0), 1 / k(0.0), 1 / k(-0.0))`,
 		// functions as values
 		`twice = func(f, x) {f(f(x))}; println(twice(x => x * 3, 2), twice(func(s) {s + "!"}, "a"))`,
 		`compose = (f, g) => x => f(g(x)); h = compose(x => x + 1, x => x * 2); println(h(5))`,
